@@ -118,6 +118,9 @@ func (e *Engine) shouldInit(p *ssa.Package) bool {
 	if path == ModulePath || strings.HasPrefix(path, ModulePath+"/") {
 		return true
 	}
+	if strings.HasPrefix(path, "scratchmod/") {
+		return !strings.HasSuffix(path, "/zzverif")
+	}
 	return stdInitWhitelist[path]
 }
 
